@@ -257,7 +257,7 @@ def report(prop, pmod, results, tier, seed, t0):
                 continue
             proved = all(o['discharged'] == o['paths'] for o in r['obligations']) and st == 'ok' and r['obligations']
             if proved:
-                selfcheck.append((key, fl, list(r.get('callee_contracts') or [])))
+                selfcheck.append((key, fl, list(r.get('callee_contracts') or []), list(r.get('assumed_repo_models') or [])))
             else:
                 violations.append((key + '#runtime', dict(fl, confirmed=True, obligation=key + '#runtime-contract'), None))
         if fz.get('error'):
@@ -269,8 +269,13 @@ def report(prop, pmod, results, tier, seed, t0):
     # "proved but fails natively": a modular proof rests on the contracts of the callees.  If one of those contracts is itself violated in this
     # run, the native failure is a consequence of that violation (reported as such); otherwise the engine contradicts itself: checker error.
     violated = {name.split('#')[0] for name, _, _ in violations}
-    for key, fl, callees in selfcheck:
+    for key, fl, callees, repo_models in selfcheck:
         broken = [c for c in callees if c in violated or any(v.startswith(c + '[') for v in violated)]
+        if not broken and repo_models:
+            # the proof assumed a model of repository code (listed as an assumption); the real code contradicts it on this input
+            violations.append((key + '#runtime', dict(fl, confirmed=True, obligation=key + '#runtime-contract',
+                                                      note='all obligations are discharged under the ASSUMED model(s) of %s; the real code does not behave like the model on this input' % ', '.join(repo_models)), None))
+            continue
         if broken:
             violations.append((key + '#runtime', dict(fl, confirmed=True, obligation=key + '#runtime-contract',
                                                       note='all obligations of this function are discharged modulo the contract of %s, which is violated in this run' % ', '.join(broken)), None))
